@@ -26,9 +26,9 @@ def flow(ctx, variant, count, seed):
     # 6: circuits without free capacity (every row covered by obstructions: finding F28 of C06); 7: the detailed placer is left with NO free
     # row segment (rows tiled exactly by movable macros / under fixed macros) or exactly one; 8: rows of 8..12 standard cells with
     # reordering windows of 6..8 cells (up to 8! orderings per window: a handful of cases)
-    for stream in (0, 1, 2, 3, 6, 7, 8):
+    for stream in (0, 1, 2, 3, 6, 7, 8, 9):
         lines = common.corpus("C07", ("FL ",)) if stream == 0 else []
-        n = count // 4 if stream < 3 else count // 3 if stream == 3 else max(8, count // 8) if stream in (6, 7) else max(6, count // 300)
+        n = count // 4 if stream < 3 else count // 3 if stream == 3 else max(8, count // 8) if stream in (6, 7, 9) else max(6, count // 300)
         lines += common.harness_gen(h, [seed + stream, n, stream])
         impl, _, _ = common.run_both([h, "run"], None, lines, chunk=25, timeout=240)
         out["cases"] += len(lines)
